@@ -26,7 +26,11 @@ Lemma pins_naming_options :
                              "lazy-import"; "add-iam-methods"; "metadata"; "transport"; "grpc"; "+"; "rest-numeric-enums";
                              "Unrecognized option: `python-gapic-"; "`."]
   /\ gapic_prefix = "python-gapic-"
-  /\ invalid_module_extra = ["metadata"; "request"; "retry"; "timeout"]
+  /\ invalid_module_extra = ["metadata"; "request"; "retry"; "timeout"; "transport"]
+  /\ sanitize_consts = ["."; "-"; "."; "_"; "-"; "_"; "_"]
+  /\ sanitize_tests = ["'.' in name or '-' in name";
+                       "name in invalid_module_names or to_snake_case(name) in invalid_module_names or full_path in visited_names";
+                       "full_path in visited_names"]
   /\ file_to_generate_exprs = ["in_package(fd.package)"; "proto.file_to_generate"]
   /\ in_package_src = "not package or proto_package == package or proto_package.startswith(package + '.')"
   /\ subpackage_elts = ["p.meta.address.subpackage[level]"]
